@@ -29,6 +29,26 @@ class DumpError(Exception):
     pass
 
 
+def base(dom):
+    """`segv0:dpk` -> `segv0`: a domain of a second key type is named <base>:<key type>."""
+    return dom.split(":")[0]
+
+
+def ident(dom):
+    return dom.replace(":", "_")
+
+
+def sfx_of(dom):
+    return dom[len(base(dom)):]
+
+
+def doms_of(o, bases):
+    """the domains of this run whose base is one of `bases`, base order first, then key type (DefiniteDescriptorKey, dpk, str)"""
+    order = {"": 0, ":dpk": 1, ":str": 2}
+    ds = [d for d in o["V"] if base(d) in bases]
+    return sorted(ds, key=lambda d: (order.get(sfx_of(d), 9), bases.index(base(d))))
+
+
 def parse_ms(tok, pos, roles, hbname):
     """Parse one miniscript from the prefix dump. Returns (coq term, new pos); appends (role, token) to roles."""
     if pos >= len(tok):
@@ -91,9 +111,9 @@ def roles_of(dom, dump, hbname=lambda h: h):
     tok = dump.split()
     roles = []
     try:
-        if dom in MS_DOMS:
+        if base(dom) in MS_DOMS:
             _, pos = parse_ms(tok, 0, roles, hbname)
-        elif dom == "desc":
+        elif base(dom) == "desc":
             roles.append(("desc-kind", tok[0]))
             if tok[0] in ("pkh", "wpkh", "sh-wpkh"):
                 roles.append(("key", tok[1]))
@@ -126,7 +146,7 @@ NARY_N_ROLES = ("thresh-n", "multi-n")
 
 
 def parse_output(text):
-    out = {"K": {}, "HB": {}, "V": {}, "M": {}, "H": {}, "C": {}, "P": {}, "S": {}, "W": {}, "WV": {}}
+    out = {"K": {}, "HB": {}, "V": {}, "M": {}, "H": {}, "C": {}, "P": {}, "S": {}, "W": {}, "WV": {}, "HW": {}, "HC": {}}
     for line in text.splitlines():
         f = line.split(" ")
         k = f[0]
@@ -138,8 +158,8 @@ def parse_output(text):
             out["V"].setdefault(f[1], {})[int(f[2])] = (f[3] == "1", " ".join(f[4:]))
         elif k == "M":
             out["M"].setdefault(f[1], {})[int(f[2])] = f[3]
-        elif k == "H":
-            out["H"].setdefault(f[1], {})[int(f[2])] = f[3:]
+        elif k in ("H", "HW", "HC"):
+            out[k].setdefault(f[1], {})[int(f[2])] = f[3:]
         elif k == "C":
             out["C"].setdefault(f[1], {})[int(f[2])] = tuple(f[3:6])
         elif k == "P":
@@ -397,8 +417,33 @@ def chunks(l, n):
     return [l[i:i + n] for i in range(0, len(l), n)] or [[]]
 
 
+def raw_words(tokens, hbname):
+    """Gallina list of rawword for a recorded sequence of Hasher calls."""
+    ws = []
+    for tk in tokens:
+        k, v = tk[0], tk[1:]
+        if k == "i":
+            ws.append("RI %s" % v)
+        elif k == "u":
+            ws.append("RU %s" % v)
+        elif k == "w":
+            ws.append("RW %s" % v)
+        elif k == "k":
+            ws.append("RK %s" % v)
+        elif k == "c":
+            ws.append("RC %s" % v)
+        elif k == "b":
+            try:
+                ws.append("RB %s" % hbname(v))
+            except DumpError:
+                ws.append("RB [%s]" % "; ".join(str(int(v[i:i + 2], 16)) for i in range(0, len(v), 2)))
+        else:
+            ws.append("RU 4294967295")   # a call the model has no word for: forces a mismatch
+    return "[%s]" % "; ".join(ws)
+
+
 def gen_coq(o):
-    """Tables/EqOrdCasesGen.v: this run's miniscript values, pair observations and hash streams."""
+    """Tables/EqOrdCasesGen.v: this run's values, pair observations and hash streams, per key type."""
     hb = o["HB"]                      # hex -> name
     used = {}
 
@@ -409,8 +454,17 @@ def gen_coq(o):
         return used[h]
 
     body = []
+
+    def chunked(name, ty, rows, size, sep="; "):
+        cn = []
+        for c, ch in enumerate(chunks(rows, size)):
+            body.append("Definition %s_%d : list %s := [%s]." % (name, c, ty, sep.join(ch)))
+            cn.append("%s_%d" % (name, c))
+        body.append("Definition %s : list %s := %s." % (name, ty, " ++ ".join(cn)))
+
     names = []
-    for dom in MS_DOMS:
+    for dom in doms_of(o, MS_DOMS):
+        idn = ident(dom)
         vals = o["V"].get(dom, {})
         n = len(vals)
         terms = []
@@ -420,68 +474,31 @@ def gen_coq(o):
             if pos != len(vals[i][1].split()):
                 raise DumpError("trailing tokens in dump %r" % vals[i][1])
             terms.append(t)
-        body.append("Definition ranks_%s : list N := [%s]." % (dom, "; ".join(str(x) for x in o["K"][dom])))
-        cn = []
-        for c, ch in enumerate(chunks(terms, 300)):
-            body.append("Definition vals_%s_%d : list ms := [%s]." % (dom, c, ";\n  ".join(ch)))
-            cn.append("vals_%s_%d" % (dom, c))
-        body.append("Definition vals_%s : list ms := %s." % (dom, " ++ ".join(cn)))
-        pl = ["(%d, %d, (%d, %d, %s))" % (i, j, EQC[e], CMPC[c], r) for (i, j), (e, c, h, r) in sorted(o["P"].get(dom, {}).items())]
-        cn = []
-        for c, ch in enumerate(chunks(pl, 1500)):
-            body.append("Definition pairs_%s_%d : list pcase := [%s]." % (dom, c, "; ".join(ch)))
-            cn.append("pairs_%s_%d" % (dom, c))
-        body.append("Definition pairs_%s : list pcase := %s." % (dom, " ++ ".join(cn)))
-        sl = []
-        for i in range(n):
-            ws = []
-            for tk in o["H"][dom][i]:
-                k, v = tk[0], tk[1:]
-                if k == "i":
-                    ws.append("RI %s" % v)
-                elif k == "u":
-                    ws.append("RU %s" % v)
-                elif k == "w":
-                    ws.append("RW %s" % v)
-                elif k == "k":
-                    ws.append("RK %s" % v)
-                elif k == "b":
-                    ws.append("RB %s" % hbname(v))
-                else:
-                    ws.append("RU 4294967295")   # a call the model has no word for: forces a mismatch
-            sl.append("(%d, [%s])" % (i, "; ".join(ws)))
-        cn = []
-        for c, ch in enumerate(chunks(sl, 200)):
-            body.append("Definition streams_%s_%d : list (N * list rawword) := [%s]." % (dom, c, ";\n  ".join(ch)))
-            cn.append("streams_%s_%d" % (dom, c))
-        body.append("Definition streams_%s : list (N * list rawword) := %s." % (dom, " ++ ".join(cn)))
-        body.append("Definition dom_%s : dom := mkDom ranks_%s vals_%s pairs_%s streams_%s." % (dom, dom, dom, dom, dom))
-        names.append("dom_%s" % dom)
+        body.append("Definition ranks_%s : list N := [%s]." % (idn, "; ".join(str(x) for x in o["K"][dom])))
+        chunked("vals_%s" % idn, "ms", terms, 300, ";\n  ")
+        chunked("pairs_%s" % idn, "pcase", ["(%d, %d, (%d, %d, %s))" % (i, j, EQC[e], CMPC[c], r)
+                                            for (i, j), (e, c, h, r) in sorted(o["P"].get(dom, {}).items())], 1500)
+        hs = o["H"].get(dom, {})      # no recorded streams for String keys (the hash types feed themselves as strings)
+        chunked("streams_%s" % idn, "(N * list rawword)", ["(%d, %s)" % (i, raw_words(hs[i], hbname)) for i in sorted(hs)], 200, ";\n  ")
+        body.append("Definition dom_%s : dom := mkDom ranks_%s vals_%s pairs_%s streams_%s." % (idn, idn, idn, idn, idn))
+        names.append("dom_%s" % idn)
     # descriptors: ==, cmp against desc_eq / desc_cmp (full keys ranked as in segv0, x-only keys as in tap)
-    dv = o["V"].get("desc", {})
-    dterms = [desc_term(dv[i][1], hbname) for i in range(len(dv))]
-    cn = []
-    for c, ch in enumerate(chunks(dterms, 200)):
-        body.append("Definition dvals_%d : list desc := [%s]." % (c, ";\n  ".join(ch)))
-        cn.append("dvals_%d" % c)
-    body.append("Definition dvals : list desc := %s." % " ++ ".join(cn))
-    pl = ["(%d, %d, (%d, %d))" % (i, j, EQC[e], CMPC[c]) for (i, j), (e, c, h, r) in sorted(o["P"].get("desc", {}).items())]
-    cn = []
-    for c, ch in enumerate(chunks(pl, 1500)):
-        body.append("Definition dpairs_%d : list dpcase := [%s]." % (c, "; ".join(ch)))
-        cn.append("dpairs_%d" % c)
-    body.append("Definition dpairs : list dpcase := %s." % " ++ ".join(cn))
-    wl = ["(%d, %d, %s, %s, (%d, %d))" % (i, j, "true" if WARM[st][0] else "false", "true" if WARM[st][1] else "false", EQC[e], CMPC[c])
-          for (i, j, st, e, c, h) in o["W"].get("desc", [])]
-    cn = []
-    for c, ch in enumerate(chunks(wl, 1500)):
-        body.append("Definition dwpairs_%d : list dwcase := [%s]." % (c, "; ".join(ch)))
-        cn.append("dwpairs_%d" % c)
-    body.append("Definition dwpairs : list dwcase := %s." % " ++ ".join(cn))
-    body.append("Definition ddom_eq : deqdom := mkDEqDom ranks_segv0 ranks_tap dvals dpairs dwpairs.")
+    dnames, pnames, hnames = [], [], []
+    for dom in doms_of(o, ["desc"]):
+        x = ident(sfx_of(dom))
+        dv = o["V"].get(dom, {})
+        chunked("dvals%s" % x, "desc", [desc_term(dv[i][1], hbname) for i in range(len(dv))], 200, ";\n  ")
+        chunked("dpairs%s" % x, "dpcase", ["(%d, %d, (%d, %d))" % (i, j, EQC[e], CMPC[c])
+                                           for (i, j), (e, c, h, r) in sorted(o["P"].get(dom, {}).items())], 1500)
+        chunked("dwpairs%s" % x, "dwcase", ["(%d, %d, %s, %s, (%d, %d))" % (i, j, "true" if WARM[st][0] else "false",
+                                                                              "true" if WARM[st][1] else "false", EQC[e], CMPC[c])
+                                            for (i, j, st, e, c, h) in o["W"].get(dom, [])], 1500)
+        body.append("Definition ddom_eq%s : deqdom := mkDEqDom ranks_segv0%s ranks_tap%s dvals%s dpairs%s dwpairs%s." % (x, x, x, x, x, x))
+        dnames.append("ddom_eq%s" % x)
+    body.append("Definition ddoms : list deqdom := [%s]." % "; ".join(dnames))
     # policies: ==, cmp against cpol_eqb / cpol_cmp (full keys)
-    pnames = []
-    for dom in ("conc", "sem"):
+    for dom in doms_of(o, ["conc", "sem"]):
+        idn, x = ident(dom), ident(sfx_of(dom))
         pv = o["V"].get(dom, {})
         terms = []
         for i in range(len(pv)):
@@ -490,22 +507,36 @@ def gen_coq(o):
             if pos != len(tok):
                 raise DumpError("trailing tokens in %r" % pv[i][1])
             terms.append(t)
-        cn = []
-        for c, ch in enumerate(chunks(terms, 300)):
-            body.append("Definition pvals_%s_%d : list cpol := [%s]." % (dom, c, ";\n  ".join(ch)))
-            cn.append("pvals_%s_%d" % (dom, c))
-        body.append("Definition pvals_%s : list cpol := %s." % (dom, " ++ ".join(cn)))
-        pl = ["(%d, %d, (%d, %d))" % (i, j, EQC[e], CMPC[c]) for (i, j), (e, c, h, r) in sorted(o["P"].get(dom, {}).items())]
-        cn = []
-        for c, ch in enumerate(chunks(pl, 1500)):
-            body.append("Definition ppairs_%s_%d : list ppcase := [%s]." % (dom, c, "; ".join(ch)))
-            cn.append("ppairs_%s_%d" % (dom, c))
-        body.append("Definition ppairs_%s : list ppcase := %s." % (dom, " ++ ".join(cn)))
-        body.append("Definition poldom_%s : poldom := mkPolDom %s ranks_segv0 pvals_%s ppairs_%s." % (dom, "true" if dom == "sem" else "false", dom, dom))
-        pnames.append("poldom_%s" % dom)
+        chunked("pvals_%s" % idn, "cpol", terms, 300, ";\n  ")
+        chunked("ppairs_%s" % idn, "ppcase", ["(%d, %d, (%d, %d))" % (i, j, EQC[e], CMPC[c])
+                                              for (i, j), (e, c, h, r) in sorted(o["P"].get(dom, {}).items())], 1500)
+        body.append("Definition poldom_%s : poldom := mkPolDom %s ranks_segv0%s pvals_%s ppairs_%s." %
+                    (idn, "true" if base(dom) == "sem" else "false", x, idn, idn))
+        pnames.append("poldom_%s" % idn)
     body.append("Definition poldoms : list poldom := [%s]." % "; ".join(pnames))
+    # Hash of descriptors and concrete policies: recorded Hasher calls against desc_feed / cpol_feed
+    for dom in doms_of(o, ["desc"]):
+        sx = sfx_of(dom)
+        x = ident(sx)
+        conc = "conc" + sx
+
+        def streams(keys, d):
+            return ["(%d, %s)" % (i, raw_words(t, hbname)) for k in keys for i, t in sorted(o[k].get(d, {}).items())]
+
+        def hpairs(d):
+            return ["(%d, %d, %s)" % (i, j, "true" if r == "1" else "false") for (i, j), (e, c, h, r) in sorted(o["P"].get(d, {}).items())]
+
+        chunked("dstreams%s" % x, "(N * list rawword)", streams(["H"], dom), 200, ";\n  ")
+        chunked("dwstreams%s" % x, "(N * list rawword)", streams(["HW", "HC"], dom), 200, ";\n  ")
+        chunked("dhpairs%s" % x, "(N * N * bool)", hpairs(dom), 1500)
+        chunked("pstreams%s" % x, "(N * list rawword)", streams(["H"], conc), 200, ";\n  ")
+        chunked("phpairs%s" % x, "(N * N * bool)", hpairs(conc), 1500)
+        body.append("Definition hdom%s : hashdom := mkHashDom dvals%s dstreams%s dwstreams%s dhpairs%s pvals_%s pstreams%s phpairs%s." %
+                    (x, x, x, x, x, ident(conc), x, x))
+        hnames.append("hdom%s" % x)
+    body.append("Definition hashdoms : list hashdom := [%s]." % "; ".join(hnames))
     head = ["(* generated by tools/props/c19.py from the output of `verif-harness eqord`; do not edit *)",
-            "From Verif Require Import EqOrdRun EqOrdDescRun EqOrdPolRun.", "Local Open Scope N_scope."]
+            "From Verif Require Import EqOrdRun EqOrdDescRun EqOrdPolRun EqOrdHashModel.", "Local Open Scope N_scope."]
     for h, nm in sorted(used.items(), key=lambda x: x[1]):
         bs = [str(int(h[i:i + 2], 16)) for i in range(0, len(h), 2)]
         head.append("Definition %s : bytes := [%s]." % (nm, "; ".join(bs)))
@@ -546,11 +577,32 @@ def coq_tie(rep, o, flagged, seed):
         rep.violation("tie:diag", "cases_match_model fails and the diagnosis did not run: " + (c3.stderr or c2.stderr)[-800:],
                       {"property": PID, "broken_tie": "Tables/EqOrdCasesCheck.v"}, False)
         return False, 0
-    pair_diag, stream_diag, spec_diag, desc_diag, wdiag, pol_diag = val
-    n_pol = 0
-    for dom, rows in zip(("conc", "sem"), pol_diag):
+    pair_diag, stream_diag, spec_diag, desc_diags, wdiags, pol_diag, hash_diags = val
+    msd, dd, pd = doms_of(o, MS_DOMS), doms_of(o, ["desc"]), doms_of(o, ["conc", "sem"])
+    n = 0
+    for ddom, hash_diag in zip(dd, hash_diags):
+        hd_s, hd_w, hd_p, hp_s, hp_p = hash_diag
+        cdom = "conc" + sfx_of(ddom)
+        for dom, what, ids, src in ((ddom, "a fresh descriptor", hd_s, "H"), (ddom, "a warmed descriptor / a clone of it", hd_w, "HW"),
+                                    (cdom, "a concrete policy", hp_s, "H")):
+            for i in ids:
+                n += 1
+                rep.violation("tie:hash-stream-%s" % base(dom), "the calls Hash::hash makes for %s [%s] %s differ from the model's feed: %s" %
+                              (what, dom, o["V"][dom][i][1], " ".join(o[src][dom][i])[:600]),
+                              {"property": PID, "seed": seed, "domain": dom, "broken_tie": "desc_policy_hash_streams_match_model",
+                               "value": o["V"][dom][i][1], "recorded_stream": o[src][dom][i]}, False)
+        for dom, prs in ((ddom, hd_p), (cdom, hp_p)):
+            for (i, j) in prs:
+                n += 1
+                if (dom, i, j) in flagged:
+                    continue
+                rep.violation("tie:hash-pair-%s" % base(dom), "equality of the recorded Hasher streams of [%s] %s | %s disagrees with the model's feeds" %
+                              (dom, o["V"][dom][i][1], o["V"][dom][j][1]),
+                              {"property": PID, "seed": seed, "domain": dom, "broken_tie": "desc_policy_hash_streams_match_model",
+                               "values": {str(i): o["V"][dom][i][1], str(j): o["V"][dom][j][1]}}, False)
+    for dom, rows in zip(pd, pol_diag):
         for (i, j, impl, model) in rows:
-            n_pol += 1
+            n += 1
             if (dom, i, j) in flagged:
                 continue
             rep.violation("tie:policy", "implementation and model disagree on ==/cmp of the policies [%s] %s | %s: impl %s model %s" %
@@ -558,24 +610,26 @@ def coq_tie(rep, o, flagged, seed):
                           {"property": PID, "seed": seed, "domain": dom, "broken_tie": "policy_cases_match_model",
                            "values": {str(i): o["V"][dom][i][1], str(j): o["V"][dom][j][1]},
                            "implementation": list(impl), "model": list(model)}, False)
-    for (i, j, wl_, wr_) in wdiag:
-        rep.violation("tie:desc-history", "implementation and model disagree on ==/cmp of the descriptors %s | %s with left warmed=%s right warmed=%s" %
-                      (o["V"]["desc"][i][1], o["V"]["desc"][j][1], wl_, wr_),
-                      {"property": PID, "seed": seed, "domain": "desc", "broken_tie": "cases_match_model (descriptors under a cache history)",
-                       "values": {str(i): o["V"]["desc"][i][1], str(j): o["V"]["desc"][j][1]}, "left_warmed": wl_, "right_warmed": wr_}, False)
-    n_desc = len(desc_diag) + len(wdiag) + n_pol
-    for (i, j, impl, coded) in desc_diag:
-        if ("desc", i, j) in flagged:
-            continue
-        rep.violation("tie:desc", "implementation and model disagree on ==/cmp of the descriptors %s | %s: impl %s model %s" %
-                      (o["V"]["desc"][i][1], o["V"]["desc"][j][1], list(impl), list(coded)),
-                      {"property": PID, "seed": seed, "domain": "desc", "broken_tie": "cases_match_model (descriptors)",
-                       "values": {str(i): o["V"]["desc"][i][1], str(j): o["V"]["desc"][j][1]},
-                       "implementation": list(impl), "model": list(coded)}, False)
-    n = n_desc
+    for dom, wdiag in zip(dd, wdiags):
+        for (i, j, wl_, wr_) in wdiag:
+            n += 1
+            rep.violation("tie:desc-history", "implementation and model disagree on ==/cmp of the descriptors %s | %s with left warmed=%s right warmed=%s" %
+                          (o["V"][dom][i][1], o["V"][dom][j][1], wl_, wr_),
+                          {"property": PID, "seed": seed, "domain": dom, "broken_tie": "cases_match_model (descriptors under a cache history)",
+                           "values": {str(i): o["V"][dom][i][1], str(j): o["V"][dom][j][1]}, "left_warmed": wl_, "right_warmed": wr_}, False)
+    for dom, desc_diag in zip(dd, desc_diags):
+        for (i, j, impl, coded) in desc_diag:
+            n += 1
+            if (dom, i, j) in flagged:
+                continue
+            rep.violation("tie:desc", "implementation and model disagree on ==/cmp of the descriptors [%s] %s | %s: impl %s model %s" %
+                          (dom, o["V"][dom][i][1], o["V"][dom][j][1], list(impl), list(coded)),
+                          {"property": PID, "seed": seed, "domain": dom, "broken_tie": "cases_match_model (descriptors)",
+                           "values": {str(i): o["V"][dom][i][1], str(j): o["V"][dom][j][1]},
+                           "implementation": list(impl), "model": list(coded)}, False)
     comp = ["==", "cmp", "hash"]
     cmpn = ["Less", "Equal", "Greater", "panic"]
-    for dom, rows in zip(MS_DOMS, pair_diag):
+    for dom, rows in zip(msd, pair_diag):
         for (i, j, impl, coded, same) in rows:
             n += 1
             which = [comp[k] for k in range(3) if impl[k] != coded[k]]
@@ -589,14 +643,14 @@ def coq_tie(rep, o, flagged, seed):
                           {"property": PID, "seed": seed, "domain": dom, "broken_tie": "cases_match_model (Tables/EqOrdCasesCheck.v)",
                            "a": o["V"][dom][i][1], "b": o["V"][dom][j][1], "implementation": list(impl), "model": list(coded),
                            "structurally_equal": same}, False)
-    for dom, ids in zip(MS_DOMS, stream_diag):
+    for dom, ids in zip(msd, stream_diag):
         for i in ids:
             n += 1
             rep.violation("tie:hash-stream", "the calls Hash::hash makes for [%s] %s differ from the model's hash_raw: %s" %
                           (dom, o["V"][dom][i][1], " ".join(o["H"][dom][i])),
                           {"property": PID, "seed": seed, "domain": dom, "broken_tie": "hash_streams_match_model",
                            "value": o["V"][dom][i][1], "recorded_stream": o["H"][dom][i]}, False)
-    for dom, ps in zip(MS_DOMS, spec_diag):
+    for dom, ps in zip(msd, spec_diag):
         for (i, j) in ps:
             n += 1
             rep.violation("tie:dump-identity", "dump identity and model term identity disagree for [%s] %s | %s" %
@@ -642,12 +696,13 @@ def run(rep, tier, seed, replay):
             k = "==:%s cmp:%s hash-equal:%s" % (v[0], v[1], v[2])
             obs_hist[k] = obs_hist.get(k, 0) + 1
     samples = []
-    for dom in MS_DOMS + ["desc", "conc", "sem"]:
+    all_doms = doms_of(o, MS_DOMS + ["desc", "conc", "sem"])
+    for dom in all_doms:
         ps = sorted(o["P"].get(dom, {}).items())
         for (i, j), v in ps[3:400:97][:3]:
             samples.append({"domain": dom, "a": o["V"][dom][i][1][:300], "b": o["V"][dom][j][1][:300],
                             "eq": v[0], "cmp": v[1], "hash_equal": v[2]})
-    tie_obl = 4
+    tie_obl = 5
     rep.coverage.update({
         "obligations": len(thms) + tie_obl,
         "discharged": (len(thms) if ok else 0) + (tie_obl if tie_ok else 0),
@@ -655,13 +710,16 @@ def run(rep, tier, seed, replay):
                        "coqc Tables/EqOrdCasesGen.v Tables/EqOrdCasesCheck.v",
         "trusted_base": vlib.TRUSTED_BASE_COMMON + [
             "the canonical dump (harness/src/ast.rs dump_str and the descriptor/policy dumps of eqord.rs) as the structural-equality oracle",
-            "Ord/Eq/Hash of the key type DefiniteDescriptorKey (supplied to the model as a rank table; a total order in the theorems)"],
+            "Ord/Eq/Hash of the key types DefiniteDescriptorKey, DescriptorPublicKey, String (supplied to the model as rank tables; a total order in the theorems)",
+            "a value of the second key types is identified with its dump by translating it back with translate_pk (C20 checks translate_pk)"],
         "evaluations": stats["pairs"] + stats["triples"] + stats["sets"] + stats["clones"] + stats.get("history_cases", 0),
         "history_cases": stats.get("history_cases", 0),
         "distinct_nontrivial": sum(len(v) for v in o["V"].values()),
         "pairs": stats["pairs"], "triples": stats["triples"], "set_groups": stats["sets"], "clones": stats["clones"],
-        "pairs_compared_in_coq": sum(len(o["P"].get(d, {})) for d in MS_DOMS + ["desc", "conc", "sem"]) + len(o["W"].get("desc", [])),
-        "hash_streams_compared_in_coq": sum(len(o["H"].get(d, {})) for d in MS_DOMS),
+        "pairs_compared_in_coq": sum(len(o["P"].get(d, {})) for d in all_doms) + len(o["W"].get("desc", [])),
+        "second_key_types": {d: len(o["V"][d]) for d in all_doms if ":" in d},
+        "hash_streams_compared_in_coq": sum(len(v) for v in o["H"].values()) + len(o["HW"].get("desc", {})) + len(o["HC"].get("desc", {})),
+        "hash_pairs_compared_in_coq": sum(len(o["P"].get(d, {})) for d in all_doms if base(d) != "sem"),
         "differing_cases": ndiff,
         "rule": "generated miniscripts (type-directed, 4 contexts, all base types) + every single-step neighbour kind "
                 "(k+-1, child/key added/removed, regrouping, leaf key/hash/time changed, sugar variants, children swapped, wrapper/"
@@ -675,7 +733,7 @@ def run(rep, tier, seed, replay):
     })
     rep.assumptions = [
         "two values are structurally identical iff their canonical dumps are equal (the dump visits every field that Display prints)",
-        "Hash of descriptors and policies (derived) is judged by the oracle only (not modelled in Coq); policy ==/cmp are modelled and tied",
+        "a key feeds itself to the Hasher as one opaque atom (its own Hash impl is not modelled); policy::Semantic has no Hash impl",
         "the spend-info cache of Tr is modelled as run-time state that ==/cmp do not read; that the compiled code's answers do not depend "
         "on it (fresh / warmed / cloned operands) is observed per run on every tr pair, in Coq against the model and by the oracle",
         "keys are atoms: the key type's own Eq/Ord/Hash are assumed lawful (total_order hypothesis)"]
